@@ -1,0 +1,10 @@
+//go:build verif
+
+package fileutil
+
+// Contracts for /verif (contract-based deductive verification of this package).
+// Comment-only file: only the lines starting with "//@" are read, by /verif/bin/govc.
+
+// T (assumption A4): FileMD5 reads the file and has no effect on program state
+//@ func FileMD5 trusted
+//@   modifies nothing
